@@ -90,6 +90,25 @@ func main() {
 		os.Exit(2)
 	}
 	name := os.Args[1]
+	if name == "serve" {
+		// coprocess mode: one left-hand side per line on stdin, its observation per line on stdout
+		// (used to run the same cases on a differently built harness, e.g. -tags coraza.no_memoize)
+		sc := bufio.NewScanner(os.Stdin)
+		sc.Buffer(make([]byte, 1<<20), 1<<26)
+		w := bufio.NewWriter(os.Stdout)
+		for sc.Scan() {
+			toks := strings.Fields(sc.Text())
+			obs := "NOENGINE"
+			if len(toks) > 0 {
+				if e, ok := engines[toks[0]]; ok {
+					obs = safeExec(e, toks[1:])
+				}
+			}
+			w.WriteString(obs + "\n")
+			w.Flush()
+		}
+		return
+	}
 	fs := flag.NewFlagSet(name, flag.ExitOnError)
 	seed := fs.Int64("seed", 1, "PRNG seed")
 	n := fs.Int("n", 1000, "number of cases")
